@@ -1481,6 +1481,9 @@ class Runner:
                     viol.append(('C16', 'matching_outside', 'i=%d' % i))
                     break
             viol += self.health(x, 'match')
+        if any(v[0] == 'C16' for v in viol):
+            # (un)format_matching is remove/apply over the matches: the range operation's own property is broken too
+            viol.append(('C07', 'unformat_is_remove', viol[-1][2]) if un else ('C06', 'format_is_apply', viol[-1][2]))
         self.emit('unfmatch' if un else 'fmatch', inp, self.outcome_line(out, P.ok_astr),
                   '%s(%r,%r,regex=%r,match_case=%r,count=%r) on %r' % ('unformat_matching' if un else 'format_matching', pat, fmt, regex, mc, count, t), viol)
 
@@ -1618,15 +1621,32 @@ class Runner:
                 return xc if name in inplace_names else r
             r_a = self.call(on_string)
             r_s = self.call(lambda: getattr(a, name)(*args, **kw))
+            nv = len(viol)
             if r_a[0] != r_s[0] or (r_a[0] == 'err' and type(r_a[1]) is not type(r_s[1])):
                 viol.append(('C13', 'ansistr_op_eq', '%s%r: outcome %r vs %r' % (name, args, r_s, r_a)))
             elif r_a[0] == 'ok':
                 viol += same(r_s[1], r_a[1], '%s%r' % (name, args))
+            if len(viol) > nv and name in self.TWIN_OWNER:
+                # the operation's own property speaks about both classes: the immutable one must do the same
+                viol.append((self.TWIN_OWNER[name], 'ansistr_twin', 'AnsiStr.%s%r differs from AnsiString.%s: %s' % (name, args, name, viol[-1][2])))
             v2 = same(a, x, 'receiver after ' + name)
             if v2:
                 viol.append(('C13', 'ansistr_immutable', name))
         self.count('twin', ('ok', None))
         self.emit('noop', None, None, 'AnsiStr twin on %r' % x._s, viol)
+
+    TWIN_OWNER = {'apply_formatting': 'C06', 'remove_formatting': 'C07', 'clear_formatting': 'C07', '__getitem__': 'C04', 'clip': 'C04',
+                  '__add__': 'C05', '__iadd__': 'C05', 'ljust': 'C12', 'rjust': 'C12', 'center': 'C12', 'zfill': 'C12', '__format__': 'C12',
+                  'to_str': 'C01', 'simplify': 'C03', 'strip': 'C11', 'lstrip': 'C11', 'rstrip': 'C11', 'removeprefix': 'C11',
+                  'removesuffix': 'C11', 'replace': 'C11', 'split': 'C11', 'rsplit': 'C11', 'splitlines': 'C11', 'partition': 'C11',
+                  'rpartition': 'C11', 'upper': 'C11', 'lower': 'C11', 'title': 'C11', 'capitalize': 'C11', 'swapcase': 'C11',
+                  'casefold': 'C11', 'expandtabs': 'C11', 'format_matching': 'C16', 'unformat_matching': 'C16',
+                  'apply_formatting_for_match': 'C16', 'find_settings': 'C17', 'settings_at': 'C17', 'ansi_settings_at': 'C17',
+                  'is_formatting_valid': 'C15', 'is_formatting_parsable': 'C15', 'is_optimizable': 'C15',
+                  'count': 'C10', 'find': 'C10', 'rfind': 'C10', 'index': 'C10', 'rindex': 'C10', 'endswith': 'C10', '__len__': 'C10',
+                  '__contains__': 'C10', 'isalnum': 'C10', 'isalpha': 'C10', 'isascii': 'C10', 'isdecimal': 'C10', 'isdigit': 'C10',
+                  'isidentifier': 'C10', 'islower': 'C10', 'isnumeric': 'C10', 'isprintable': 'C10', 'isspace': 'C10', 'istitle': 'C10',
+                  'isupper': 'C10'}
 
     # ----------------------------------------------------------------- histories
     OPS = ['new', 'copy', 'apply', 'remove', 'clear', 'slice', 'index', 'iter', 'concat', 'join', 'pad', 'tostr',
@@ -1639,7 +1659,7 @@ class Runner:
     BASE_W = {'new': 3, 'copy': 2, 'apply': 10, 'remove': 7, 'clear': 1, 'slice': 7, 'index': 2, 'iter': 1,
               'concat': 8, 'join': 2, 'pad': 6, 'tostr': 8, 'find': 4, 'settingsat': 2, 'simplify': 3,
               'roundtrip': 3, 'strip': 3, 'affix': 2, 'split': 4, 'replace': 4, 'case': 2, 'assign': 2,
-              'expandtabs': 1, 'query': 2, 'match': 3, 'twin': 2}
+              'expandtabs': 1, 'query': 2, 'match': 3, 'twin': 3}
 
     def run_op(self, nm):
         """run one generated operation; a harness failure while observing a value is a finding
